@@ -363,6 +363,19 @@ type tlGen struct {
 	// knobs
 	bigStrings  bool
 	alwaysCanon bool
+	// fieldsOf, when set, says which conditional fields of a constructor form a group and which booleans
+	// are bare flag bits (HasFlag / Bit / InBits of the returned descriptors; same length and order as
+	// c.Fields) instead of the struct tags: C01 reads that from the schema. nil: the struct tags.
+	fieldsOf func(c *reg.Ctor) []reg.Field
+}
+
+func (g *tlGen) fields(c *reg.Ctor) []reg.Field {
+	if g.fieldsOf != nil {
+		if fs := g.fieldsOf(c); len(fs) == len(c.Fields) {
+			return fs
+		}
+	}
+	return c.Fields
 }
 
 func newTLGen(r *Rand) *tlGen {
@@ -518,6 +531,107 @@ func (g *tlGen) bigBytes(n int) []byte {
 	return b
 }
 
+// bigIntEdges: the fixed-width numbers that every run contains whatever the seed draws: 0, 1, all ones,
+// numbers with exactly 1, 2, 8, 16 and width-1 leading zero bytes (the first significant byte not zero, the
+// rest random), and the two numbers around the half width (2^(4*width) and 2^(4*width)-1).
+func (g *tlGen) bigIntEdges(width int) []*big.Int {
+	var out []*big.Int
+	out = append(out, new(big.Int), big.NewInt(1))
+	ones := make([]byte, width)
+	for i := range ones {
+		ones[i] = 0xff
+	}
+	out = append(out, new(big.Int).SetBytes(ones))
+	for _, z := range []int{1, 2, 8, 16, width - 1} {
+		if z < 1 || z >= width {
+			continue
+		}
+		b := g.r.Bytes(width)
+		for i := 0; i < z; i++ {
+			b[i] = 0
+		}
+		if b[z] == 0 {
+			b[z] = 1 + byte(g.r.Intn(255))
+		}
+		out = append(out, new(big.Int).SetBytes(b))
+	}
+	half := new(big.Int).Lsh(big.NewInt(1), uint(4*width))
+	out = append(out, half, new(big.Int).Sub(half, big.NewInt(1)))
+	return out
+}
+
+// bigIntObjects: for a constructor that has *tl.Int128 / *tl.Int256 fields (or vectors of them), objects
+// in which these fields hold the numbers of bigIntEdges: for every edge class one object with every such
+// field in that class, and for every such field and class one object in which the other fields are random.
+// Everything else as object() makes it. Empty for constructors without such fields.
+func (g *tlGen) bigIntObjects(c *reg.Ctor, depth int) []reflect.Value {
+	width := func(t reflect.Type) int {
+		switch {
+		case t == tInt128, t.Kind() == reflect.Slice && t.Elem() == tInt128:
+			return 16
+		case t == tInt256, t.Kind() == reflect.Slice && t.Elem() == tInt256:
+			return 32
+		}
+		return 0
+	}
+	var idx []int
+	for i, f := range c.Fields {
+		if !f.Ignore && width(f.Type) > 0 {
+			idx = append(idx, i)
+		}
+	}
+	if len(idx) == 0 {
+		return nil
+	}
+	set := func(st reflect.Value, i, class int) bool {
+		t := c.Fields[i].Type
+		w := width(t)
+		es := g.bigIntEdges(w)
+		if class >= len(es) {
+			return false
+		}
+		mk := func(n *big.Int) reflect.Value {
+			if w == 16 {
+				return reflect.ValueOf(&tl.Int128{Int: n})
+			}
+			return reflect.ValueOf(&tl.Int256{Int: n})
+		}
+		if t.Kind() == reflect.Slice { // the class first, then every other one
+			sl := reflect.MakeSlice(t, 0, len(es))
+			sl = reflect.Append(sl, mk(es[class]))
+			for k, e := range es {
+				if k != class {
+					sl = reflect.Append(sl, mk(e))
+				}
+			}
+			st.Field(i).Set(sl)
+		} else {
+			st.Field(i).Set(mk(es[class]))
+		}
+		return true
+	}
+	nClass := len(g.bigIntEdges(32))
+	var out []reflect.Value
+	for class := 0; class < nClass; class++ {
+		obj, any := g.object(c, depth), false
+		for _, i := range idx {
+			any = set(obj.Elem(), i, class) || any
+		}
+		if any {
+			out = append(out, obj)
+		}
+		if len(idx) > 1 {
+			for _, i := range idx {
+				obj := g.object(c, depth)
+				if set(obj.Elem(), i, class) {
+					out = append(out, obj)
+				}
+			}
+		}
+	}
+	return out
+}
+
 // value generates a value of static type t. nonNil forces pointers/interfaces to be non-nil.
 func (g *tlGen) value(t reflect.Type, depth int, nonNil bool) reflect.Value {
 	out := reflect.New(t).Elem()
@@ -644,7 +758,8 @@ func (g *tlGen) object(c *reg.Ctor, depth int) reflect.Value {
 	obj := reflect.New(c.Type.Elem())
 	st := obj.Elem()
 	present := map[int]bool{}
-	for i, f := range c.Fields {
+	fields := g.fields(c)
+	for i, f := range fields {
 		if f.Ignore {
 			continue
 		}
@@ -669,7 +784,7 @@ func (g *tlGen) object(c *reg.Ctor, depth int) reflect.Value {
 	// present group that cannot be nil on the wire (pointers, interfaces) are filled
 	canon := g.alwaysCanon || g.r.Intn(8) != 0
 	if canon {
-		for i, f := range c.Fields {
+		for i, f := range fields {
 			if !f.HasFlag {
 				continue
 			}
@@ -690,17 +805,22 @@ func (g *tlGen) object(c *reg.Ctor, depth int) reflect.Value {
 	return obj
 }
 
-// isCanonical: every bitflag member equals the presence of its flag group (see DESIGN, C01 reading).
-func isCanonical(v reflect.Value) bool {
+// isCanonical: every bitflag member equals the presence of its flag group (see DESIGN, C01 reading);
+// groups and bitflag members as the struct tags say.
+func isCanonical(v reflect.Value) bool { return isCanonicalBy(v, nil) }
+
+// isCanonicalBy: the same with the groups taken from fieldsOf (nil, or a result of another length than
+// c.Fields: the struct tags) - see tlGen.fieldsOf.
+func isCanonicalBy(v reflect.Value, fieldsOf func(c *reg.Ctor) []reg.Field) bool {
 	switch v.Kind() {
 	case reflect.Interface:
 		if v.IsNil() {
 			return true
 		}
-		return isCanonical(v.Elem())
+		return isCanonicalBy(v.Elem(), fieldsOf)
 	case reflect.Slice:
 		for i := 0; i < v.Len(); i++ {
-			if !isCanonical(v.Index(i)) {
+			if !isCanonicalBy(v.Index(i), fieldsOf) {
 				return false
 			}
 		}
@@ -718,13 +838,19 @@ func isCanonical(v reflect.Value) bool {
 			return true
 		}
 		st := v.Elem()
+		fields := c.Fields
+		if fieldsOf != nil {
+			if fs := fieldsOf(c); len(fs) == len(c.Fields) {
+				fields = fs
+			}
+		}
 		present := map[int]bool{}
-		for i, f := range c.Fields {
+		for i, f := range fields {
 			if f.HasFlag && !st.Field(i).IsZero() {
 				present[f.Bit] = true
 			}
 		}
-		for i, f := range c.Fields {
+		for i, f := range fields {
 			if f.HasFlag && f.InBits && st.Field(i).Kind() == reflect.Bool && st.Field(i).Bool() != present[f.Bit] {
 				return false
 			}
@@ -732,7 +858,7 @@ func isCanonical(v reflect.Value) bool {
 			if f.HasFlag && st.Field(i).Kind() == reflect.Float64 && st.Field(i).Float() == 0 && math.Signbit(st.Field(i).Float()) {
 				return false
 			}
-			if !isCanonical(st.Field(i)) {
+			if !isCanonicalBy(st.Field(i), fieldsOf) {
 				return false
 			}
 		}
